@@ -126,6 +126,15 @@ def run(prog, world, sem, rep):
             continue
         # the supply accumulator must add the same amount
         adds = [a for a in find(acc, lambda y: y.op == "bin" and y.info == "Add")] if acc is not None else []
+        if not adds and acc is not None:
+            # fold form: accounts.iter().try_fold(zero, |minted, row| { credit(row); Ok(minted + row.amount) })
+            fc = acc.args[0] if acc.op == "proj" else acc
+            if fc.op == "call" and fc.info.rsplit("::", 1)[-1] in ("try_fold", "fold") and len(fc.args) == 3 and fc.args[2].op == "closure":
+                cb = prog.bodies.get(fc.args[2].info)
+                if cb is not None:
+                    from ..iters import mk_item
+                    r0 = world.subst_params(world.ret_expr(cb), cb, [None, None, mk_item(world, fc.args[0])], upvars=list(fc.args[2].args))
+                    adds = [a for a in find(r0, lambda y: y.op == "bin" and y.info == "Add")]
         same = any(world.ident(a.args[1]) == w0[2] or world.ident(a.args[0]) == w0[2] for a in adds)
         rep.ob("C18.a", "instantiate credits initial balances additively", same,
                "balance += %s and the supply accumulator adds the same amount" % show(w0[2], 3) if same else
